@@ -446,7 +446,9 @@ class FileWriter:
     def add_object(self, num, value, gen=0, wild=None):
         off = self.pos()
         wild = self.wild if wild is None else wild
-        self.buf += b"%d %d obj" % (num, gen) + self.eol
+        tight = getattr(self, "obj_tight", False) and isinstance(value, (dict, list, Stream, Str, Name))
+        # (obj_tight: no white space between "obj" and a value that begins with a delimiter: 1 0 obj<<...>>)
+        self.buf += b"%d %d obj" % (num, gen) + (b"" if tight else self.eol)
         if isinstance(value, Stream):
             s = Ser(self.tape, wild, base=self.pos())
             s.value(value.dict)
